@@ -166,6 +166,15 @@ class Gen:
 
     def condition(self, depth=2):
         r = self.rng
+        if self.feature('numeric_conditions', True) and r.random() < 0.15:
+            # a condition need not be a comparison: any number counts as false when zero and as
+            # true otherwise ("whatever values a script's conditions take at run time")
+            k = r.random()
+            if k < 0.4:
+                return ('expr', ('num', r.choice([0, 1, 3, 40, 2.5, -2, 0.0])))
+            if k < 0.7 and self.numeric_vars():
+                return ('expr', ('var', r.choice(self.numeric_vars())))
+            return ('expr', ('bin', r.choice(['-', '%', '*', '+']), self.expr(depth - 1), ('num', r.choice([1, 2, 3, 4]))))
         op = r.choice(CMPS)
         e = ('bin', op, self.expr(depth - 1), self.expr(depth - 1))
         if r.random() < 0.3:
